@@ -20,17 +20,25 @@
      * C19_refute_sound   : not single-peaked or not single-crossing (sibling deciders sp_decide / sc_decide,
                             proved exact in Proofs/SP.v, Proofs/SC.v)  ==>  no embedding exists, so the only
                             correct answer is False (negative oracle);
-     * Euclidean_perm     : the specification does not depend on the storage order of the ballots.
-     * eucl_decide_correct (stretch goal, reached): eucl_decide — for every axis on which the profile is
+     * Euclidean_perm, Euclidean_relabel_iff : the specification does not depend on the storage order of the
+                            ballots nor on a bijective renaming of the alternatives;
+     * eucl_decide_correct : the reference decider eucl_decide — for every axis on which the profile is
                             single-peaked, Fourier-Motzkin elimination (fuel-free, recursion on the number of
-                            variables, fm_feasible_correct: sound AND complete over Q) of the strict linear system
-                            "alternatives in axis order, every voter on the right side of every midpoint" — is an
-                            EXACT decision procedure for the specification, for all sizes. It is doubly exponential,
-                            so the correspondence runs it for m <= 6 alternatives and n <= 6 distinct orders.
-   What is NOT proved: anything about the implementation's algorithm (colouring, LP through CBC, placement of
-   grey alternatives are not mirrored); the implementation is compared with eucl_decide on small profiles, its
-   True answers are checked through eucl_check at every size, and beyond the small sizes False answers are only
-   checked on planted embeddings (positive oracle) and True answers on refuted profiles (negative oracle). *)
+                            variables; fm_feasible_correct: sound AND complete over Q) of the strict linear system
+                            "alternatives in axis order, every voter on the right side of every midpoint"
+                            (eucl_system_correct) — is an EXACT decision procedure for the specification, for all
+                            sizes: eucl_decide alts p = true <-> p is 1-Euclidean. Clause 1 of the property
+                            ("answers True exactly when ...") therefore has a proved reference verdict.
+                            It is doubly exponential in the number of alternatives; the correspondence runs it for
+                            m <= 6 alternatives and n <= 12 distinct orders (below 1 s per profile; m = 7 can take
+                            minutes).
+   What is NOT proved: anything about the implementation's own algorithm (single-crossing precheck, colouring, LP
+   through CBC, placement of the grey alternatives are not mirrored). The implementation is tied to the theorems
+   by the correspondence only: its verdict is compared with eucl_decide on every generated profile with m <= 6,
+   n <= 12; its True answers are run through eucl_check at every size; beyond those sizes verdicts are checked on
+   planted embeddings only (planted_sound). Status of /repo: the storage-order dependence, the single-order
+   ValueError and the order of the first grey group were repaired (5a8bee2, 3211aad, 4ca33bd; corpus/C19);
+   one open known finding remains (KF-C19-b: maps that misplace or omit grey alternatives of later F/G groups). *)
 From Coq Require Import List NArith ZArith QArith Qabs Bool Permutation Sorted.
 From PrefVerif Require Import Lib.Contig Model.SP Model.SC Model.Euclid Model.EuclidLP
                               Proofs.SP Proofs.SC Proofs.Euclid Proofs.EuclidLP.
@@ -124,6 +132,12 @@ Theorem Euclidean_perm : forall profile profile',
   Permutation profile profile' -> Euclidean profile -> Euclidean profile'.
 Proof. exact Proofs.Euclid.Euclidean_perm. Qed.
 Print Assumptions Euclidean_perm.
+
+(* ---- relabeling (C15): a bijective renaming of the alternatives does not change the verdict ----------------- *)
+Theorem Euclidean_relabel_iff : forall (f g : N -> N) profile,
+  (forall a, g (f a) = a) -> (Euclidean (map (map f) profile) <-> Euclidean profile).
+Proof. exact Proofs.Euclid.Euclidean_relabel_iff. Qed.
+Print Assumptions Euclidean_relabel_iff.
 
 (* ---- clause 1: an exact reference for "answers True exactly when ..." ------------------------------------- *)
 (* Fourier-Motzkin elimination decides strict homogeneous linear systems over Q (constraint c: eval c env < 0) *)
